@@ -200,8 +200,15 @@ class C11(Prop):
             probes = [p for p in probes if p["t"] in ("uint", "cs", "filesize")] + \
                      [p for p in probes if p["t"] not in ("uint", "cs", "filesize", "ep")] + \
                      [p for p in probes if p["t"] == "ep"]
+        allfirst = has_image and (not noscan) and (not firstpass) and rng.chance(1, 3)
+        if allfirst:
+            # default reporting and EVERY rule decidable without strings (fast mode: the pass run before the regions
+            # are scanned decides everything): `entrypoint` must still be the per-region value.  The match list of
+            # `r` is legitimately not computed here and is not compared.
+            probes = [p for p in probes if p["t"] in ("filesize", "uint", "cs", "ep")]
+            mode = rng.choice(["fast", "fast", "legacy", "single_pass"])
         return {"decl": d, "raw_decl": raw_decl, "regions": regions, "mode": mode, "probes": probes, "order": order,
-                "noscan_shape": noscan, "firstpass_shape": firstpass,
+                "noscan_shape": noscan, "firstpass_shape": firstpass, "allfirst_shape": allfirst,
                 "profile": rng.choice(["speed", "memory"]), "params": {}}
 
     def generate(self, ctx, rng, n):
@@ -217,8 +224,9 @@ class C11(Prop):
             decl = c.get("raw_decl") or decl_yara("a", c["decl"])
             ctx.count("string=%s" % ("text" if not c.get("raw_decl") else "hex/regex"))
             p = dict(c.get("params", {}))
-            ns_shape = bool(c.get("noscan_shape"))
-            fp_shape = bool(c.get("firstpass_shape"))
+            af_shape = bool(c.get("allfirst_shape"))
+            ns_shape = bool(c.get("noscan_shape")) or af_shape
+            fp_shape = bool(c.get("firstpass_shape")) or af_shape
             p.update({"compute_full_matches": not fp_shape, "include_not_matched": not (ns_shape or fp_shape),
                       "mode": c["mode"]})
             ctx.count("shape=%s" % ("decidable-without-strings" if ns_shape else
@@ -276,6 +284,11 @@ class C11(Prop):
                 mm = re.fullmatch(r"ep=(\d+)", line)
                 if mm and ep is None:
                     ep = r["start"] + int(mm.group(1))
+        if case.get("allfirst_shape"):
+            nfetched = len(out["per"])
+            return "C11_case_other %s %s %s %s %s %s %s" % (
+                g_prm(case.get("params", {})), gbool(case["mode"] == "legacy"), g_regions(case["regions"]),
+                glist(["[]"] * nfetched), "[]", glist(g_probe(p, ep) for p in case["probes"]), glist(results))
         if case.get("raw_decl"):
             return "C11_case_other %s %s %s %s %s %s %s" % (
                 g_prm(case.get("params", {})), gbool(case["mode"] == "legacy"),
